@@ -460,3 +460,122 @@ def kind_fn(text):
         raise AnchorLost("fsm_argument_kind_matches: statements outside the transcription rules")
     return ("fn strip_references<'a>(kind: &'a ValueKind) -> (r: &'a ValueKind)\n  ensures *r == strip(*kind),\n  decreases *kind,\n" + helper + "\n"
             "fn fsm_argument_kind_matches(expected: &ValueKind, actual: &ValueKind) -> (r: bool)\n  ensures r == kind_fits(*expected, *actual),\n{\n" + b + "\n}\n")
+
+
+# ---- pattern_to_value (src/interpreter/src/patterns.rs): the value a `->` pattern denotes = the next state -----------------------------------------
+PPATH = "src/interpreter/src/patterns.rs"
+PTV_MODEL = """
+#[derive(Clone, Copy)]
+pub struct Identifier { pub id: u64 }
+impl Identifier { pub fn clone(&self) -> (r: Identifier) ensures r == *self, { *self } }
+pub struct Atom { pub name: Identifier }
+pub struct PatternTuple(pub Vec<Pattern>);
+pub struct PatternTupleStruct { pub name: Identifier, pub patterns: Vec<Pattern> }
+pub enum Pattern { Tuple(PatternTuple), TupleStruct(PatternTupleStruct), Other(u64) }
+pub struct MechTuple { pub elements: Vec<Value> }
+impl MechTuple { #[verifier::external_body] pub fn from_vec(v: Vec<Value>) -> (r: MechTuple) ensures r.elements@ == v@, { unimplemented!() } }
+pub enum Value { Tuple(MechTuple), Other(u64) }
+pub struct MechError { pub id: u64 }
+pub struct Interpreter { pub id: u64 }
+pub struct Environment { pub id: u64 }
+pub uninterp spec fn ptv(pat: Pattern, env: Environment) -> Option<Value>;        // pattern_to_value on one pattern (the recursive call); None = error
+pub uninterp spec fn atom_of(name: Identifier) -> Value;                          // the value of the atom `:Name`
+#[verifier::external_body]
+pub fn pattern_to_value_rec(pattern: &Pattern, env: &Environment, p: &Interpreter) -> (r: Result<Value, MechError>)
+  ensures (match r { Ok(v) => ptv(*pattern, *env) == Some(v), Err(_) => ptv(*pattern, *env) is None }),
+{ unimplemented!() }
+#[verifier::external_body]
+pub fn atom(a: &Atom, p: &Interpreter) -> (r: Value) ensures r == atom_of(a.name), { unimplemented!() }
+// ---- THE CONTRACT (C17: "the sequence of states visited is exactly the one the declaration determines"): the state a transition `-> :S(e1, .., en)` leads to is the
+// tuple (atom :S, value of e1, .., value of en), each element evaluated once, in order; a tuple pattern denotes the tuple of its elements' values; a failing element is an error
+pub open spec fn vals(pats: Seq<Pattern>, env: Environment) -> Option<Seq<Value>> decreases pats.len() {
+  if pats.len() == 0 { Some(Seq::empty()) } else {
+    match (vals(pats.drop_last(), env), ptv(pats.last(), env)) { (Some(vs), Some(v)) => Some(vs.push(v)), _ => None }
+  }
+}
+pub proof fn lemma_prefix_none(pats: Seq<Pattern>, env: Environment, k: int)
+  requires 0 <= k <= pats.len(), vals(pats.subrange(0, k), env) is None,
+  ensures vals(pats, env) is None,
+  decreases pats.len() - k,
+{
+  if k < pats.len() {
+    assert(pats.subrange(0, k + 1).drop_last() =~= pats.subrange(0, k));
+    lemma_prefix_none(pats, env, k + 1);
+  } else {
+    assert(pats.subrange(0, k) =~= pats);
+  }
+}
+"""
+
+
+def _ptv_loop(b, xs, acc, prefix, what):
+    """`for inner in &XS { ACC.push(pattern_to_value(inner, env, p)?); }` -> index loop with the invariant `ACC == PREFIX + the values of the first i_ patterns`"""
+    def one(m):
+        v = m.group(1)
+        return ("for i_ in 0..%s.len()\n    invariant vals(%s@.subrange(0, i_ as int), *env) == Some(%s@.subrange(%s, %s@.len() as int)), %s@.len() == %s + i_, %s\n  {\n"
+                "    let %s = &%s[i_];\n"
+                "    proof { assert(%s@.subrange(0, i_ + 1).drop_last() =~= %s@.subrange(0, i_ as int)); assert(%s@.subrange(0, i_ + 1).last() == %s@[i_ as int]);\n"
+                "            if ptv(%s@[i_ as int], *env) is None { lemma_prefix_none(%s@, *env, i_ + 1); } }"
+                % (xs, xs, acc, prefix, acc, acc, prefix, ("%s@[0] == atom_of(%s.name)," % (acc, what)) if prefix == "1" else "",
+                   v, xs, xs, xs, xs, xs, xs, xs))
+    b, n = re.subn(r"for\s+(\w+)\s+in\s+&%s\s*\{" % re.escape(xs), one, b)
+    # after the loop: the prefix is the whole list
+    hint = ("proof { assert(%s@.subrange(0, %s@.len() as int) =~= %s@); assert(%s@ =~= %s@.subrange(0, %s) + %s@.subrange(%s, %s@.len() as int)); %s }\n      "
+            % (xs, xs, xs, acc, acc, prefix, acc, prefix, acc, ("assert(%s@.subrange(0, 1) =~= seq![%s@[0]]);" % (acc, acc)) if prefix == "1" else ""))
+    b = re.sub(r"(return\s+Ok\(\s*Value::Tuple)", lambda m_: hint + m_.group(1), b, count=1)
+    return b, n
+
+
+def ptv_fns(text, features):
+    """of `pattern_to_value`: (a) the arm `Pattern::Tuple(pattern_tuple) => {..}` as `fn tuple_value(pattern_tuple, env, p)`, (b) the tail of the arm
+    `Pattern::TupleStruct(..)` from `let mut values = Vec::with_capacity(..)` (the tuple that represents a state; DROPPED: the enum-variant case above it) as
+    `fn state_value(pattern_tuple_struct, env, p)`: the element loops -> index loops, the recursive call -> the stand-in `.._rec`, `Ref::new(x)` -> `x`,
+    `MResult` -> `Result<_, MechError>`; cfg attributes evaluated.  ASSUMED: patterns.len() + 1 does not overflow"""
+    from units import vC16
+    sig, body = extract_fn(text, "pattern_to_value")
+    b = vC16.apply_cfg(re.sub(r"//[^\n]*", "", body).replace("\r", ""), features)
+    b = b.replace("pattern_to_value(", "pattern_to_value_rec(")
+    def deref(s):
+        while True:
+            m = re.search(r"\bRef::new\(", s)
+            if not m:
+                return s
+            e = match_brace(s, m.end() - 1, "(", ")")
+            s = s[:m.start()] + "(" + s[m.end():e - 1] + ")" + s[e:]
+    out, fns = "", []
+    m = re.search(r"Pattern::Tuple\(\s*(\w+)\s*\)\s*=>\s*\{", b)
+    if not m:
+        raise AnchorLost("pattern_to_value: the arm `Pattern::Tuple(..)` not found")
+    pt = m.group(1)
+    arm = deref(b[m.end():match_brace(b, m.end() - 1) - 1])
+    arm, n = _ptv_loop(arm, pt + ".0", "values", "0", pt)
+    if n != 1 or re.search(r"\b(iter|Ref)\b", arm):
+        raise AnchorLost("pattern_to_value: the tuple arm is outside the transcription rules")
+    out += ("fn tuple_value(%s: &PatternTuple, env: &Environment, p: &Interpreter) -> (res: Result<Value, MechError>)\n"
+            "  ensures (match vals(%s.0@, *env) {\n      Some(vs) => res matches Ok(Value::Tuple(t)) && t.elements@ == vs,\n      None => res is Err }),\n{\n" % (pt, pt)
+            + arm + "\n}\n")
+    fns.append("tuple_value")
+    m = re.search(r"Pattern::TupleStruct\(\s*(\w+)\s*\)\s*=>\s*\{", b)
+    if not m:
+        raise AnchorLost("pattern_to_value: the arm `Pattern::TupleStruct(..)` not found")
+    ps = m.group(1)
+    arm = b[m.end():match_brace(b, m.end() - 1) - 1]
+    a = re.search(r"let\s+mut\s+values\s*=\s*Vec::with_capacity\(", arm)
+    if not a:
+        raise AnchorLost("pattern_to_value: the tuple construction of the tuple-struct arm not found")
+    arm = deref(arm[a.start():])
+    arm = re.sub(r"Atom\s*\{\s*name\s*:\s*([\w\.\(\)]+)\s*,?\s*\}", r"Atom { name: \1 }", arm)
+    arm, n = _ptv_loop(arm, ps + ".patterns", "values", "1", ps)
+    if n != 1 or re.search(r"\b(iter|Ref)\b", arm):
+        raise AnchorLost("pattern_to_value: the tuple-struct arm is outside the transcription rules")
+    out += ("fn state_value(%s: &PatternTupleStruct, env: &Environment, p: &Interpreter) -> (res: Result<Value, MechError>)\n"
+            "  requires %s.patterns@.len() < usize::MAX,\n"
+            "  ensures (match vals(%s.patterns@, *env) {\n      Some(vs) => res matches Ok(Value::Tuple(t)) && t.elements@ == seq![atom_of(%s.name)] + vs,\n      None => res is Err }),\n{\n" % (ps, ps, ps, ps)
+            + arm + "\n}\n")
+    fns.append("state_value")
+    return out, fns
+
+
+def ptv_unit(text, features):
+    body, fns = ptv_fns(text, features)
+    return "use vstd::prelude::*;\nverus! {\n" + PTV_MODEL + body + vlib.verus_canary("canary_ptv", "x: u64", []) + "\n} // verus!\nfn main() {}\n", fns
